@@ -83,6 +83,82 @@ theorem run_reachable {c : Cfg} {ok : State → Bool} {P : State → Prop} (hok 
       · simp at h
     · simp at h
 
+theorem upd_ne {α : Type} (f : Nat → α) {i j : Nat} (v : α) (h : j ≠ i) : upd f i v j = f j := by
+  simp [upd, h]
+
+/-- an atomic action changes the program counter of the acting thread only -/
+theorem stepThread_pc_other {c : Cfg} {s s' : State} {t u : Nat} {sp : Bool} {l : Label}
+    (h : stepThread c s t sp = some (s', l)) (hu : u ≠ t) : s'.pc u = s.pc u := by
+  unfold stepThread at h
+  cases hpc : s.pc t <;> rw [hpc] at h <;> simp only at h
+  case idle => simp at h
+  case a2 => split at h <;> (simp only [Option.some.injEq, Prod.mk.injEq] at h; rw [← h.1]; exact upd_ne _ _ hu)
+  case d2 => split at h <;> (simp only [Option.some.injEq, Prod.mk.injEq] at h; rw [← h.1]; exact upd_ne _ _ hu)
+  all_goals (simp only [Option.some.injEq, Prod.mk.injEq] at h; rw [← h.1]; exact upd_ne _ _ hu)
+
+def Move.thread : Move → Nat
+  | .act t _ => t | .alloc t => t | .dealloc t _ => t | .endc t => t | .foreach t => t | .give t _ _ => t
+
+theorem applyMove_pc_other {c : Cfg} {s s' : State} {m : Move} {u : Nat}
+    (h : applyMove c s m = some s') (hu : u ≠ m.thread) : s'.pc u = s.pc u := by
+  cases m with
+  | act t sp =>
+    simp only [applyMove, Option.map_eq_some_iff] at h
+    obtain ⟨⟨s1, l⟩, h1, h2⟩ := h
+    simp only at h2; subst h2
+    exact stepThread_pc_other h1 hu
+  | alloc t =>
+    simp only [applyMove] at h
+    split at h
+    · simp only [Option.some.injEq] at h; subst h; exact upd_ne _ _ hu
+    · simp at h
+  | dealloc t id =>
+    simp only [applyMove] at h
+    split at h
+    · simp only [Option.some.injEq] at h; subst h; exact upd_ne _ _ hu
+    · simp at h
+  | endc t =>
+    simp only [applyMove] at h
+    split at h
+    · simp only [Option.some.injEq] at h; subst h; exact upd_ne _ _ hu
+    · simp at h
+  | foreach t =>
+    simp only [applyMove] at h
+    split at h
+    · simp only [Option.some.injEq] at h; subst h; exact upd_ne _ _ hu
+    · simp at h
+  | give t u' id =>
+    simp only [applyMove] at h
+    split at h
+    · simp only [Option.some.injEq] at h; subst h; rfl
+    · simp at h
+
+theorem run_pc_other {c : Cfg} {ok : State → Bool} {n : Nat} :
+    ∀ (ms : List Move) (s s' : State), run c ok s ms = some s' → (ms.all (fun m => m.thread < n)) = true →
+      ∀ u, n ≤ u → s'.pc u = s.pc u
+  | [], s, s', h, _, u, _ => by simp only [run, Option.some.injEq] at h; subst h; rfl
+  | m :: ms, s, s', h, hall, u, hu => by
+    simp only [run] at h
+    simp only [List.all_cons, Bool.and_eq_true, decide_eq_true_eq] at hall
+    split at h
+    · rename_i s1 h1
+      split at h
+      · rw [run_pc_other ms s1 s' h hall.2 u hu]
+        exact applyMove_pc_other h1 (by omega)
+      · simp at h
+    · simp at h
+
+/-- decidable sufficient condition for "all threads idle" after a run that used threads `< n` only -/
+theorem run_quiescent {c : Cfg} {ok : State → Bool} {n : Nat} {ms : List Move} {s s' : State}
+    (h : run c ok s ms = some s') (hall : (ms.all (fun m => m.thread < n)) = true)
+    (hs : ∀ u, n ≤ u → s.pc u = .idle)
+    (hlow : ((List.range n).all (fun u => s'.pc u = .idle)) = true) : ∀ u, s'.pc u = .idle := by
+  intro u
+  by_cases hu : u < n
+  · have := List.all_eq_true.mp hlow u (List.mem_range.mpr hu)
+    simpa using this
+  · rw [run_pc_other ms s s' h hall u (by omega)]; exact hs u (by omega)
+
 /-- shorthand moves: a whole call executed without interference and without spurious CAS failure -/
 def mvAllocPop (t : Nat) : List Move := [.alloc t, .act t false, .act t false, .act t false, .act t false]
 def mvAllocMint (t : Nat) : List Move := [.alloc t, .act t false, .act t false, .act t false]
